@@ -41,6 +41,7 @@ type Scenario struct {
 	Seg       int   `json:"seg"`       // segment depth limit of the subscriber (0: unsegmented)
 	LateReg   bool  `json:"latereg"`   // listeners may be registered after Close has started
 	Readers   bool  `json:"readers"`   // listeners are read by fast and slow readers during the run (otherwise: stalled, read at the end)
+	Resync    bool  `json:"resync"`    // every other explicit sync is a resync (WithAdsResync): the chain is reported again, the head recorded and notified again
 	Idle      int   `json:"idle"`      // > 0: the idle handler TTL is 2 ms and the idle handler cleaner runs this many times at random points
 	Seed      int64 `json:"seed"`
 	Patience  int   `json:"patience,omitempty"` // watchdog multiplier (confirmation run of a hang)
@@ -398,6 +399,9 @@ func Execute(sc Scenario, pubs []*chain.Pub) (log []gate.Event, key, detail stri
 				var sopts []dagsync.SyncOption
 				xnum++
 				xk := xnum
+				if sc.Resync && xk%2 == 0 {
+					sopts = append(sopts, dagsync.WithAdsResync(true))
+				}
 				if sc.Scoped {
 					// the sync's own block hook: it must see exactly the blocks of this sync
 					sopts = append(sopts, dagsync.ScopedBlockHook(func(pid peer.ID, c cid.Cid, actions dagsync.SegmentSyncActions) {
@@ -718,6 +722,10 @@ func Run(args []string) *rep.Report {
 			sc.Scoped = *family == "scoped"
 			if sc.Scoped {
 				sc.Explicit = 1 + i%2
+				sc.Resync = i%3 == 0
+				if sc.Resync {
+					sc.Explicit = 2
+				}
 			}
 		case "faults":
 			sc.Faults = 1 + i%3
